@@ -17,6 +17,8 @@ Statements
 ["wait", d]             yield d   (d = "inf": yield float('inf'), wait for ever)
 ["spawn", r]            play routine r on its clock with its quant
 ["embed", r]            run routine r in place: yield from embed(Routine r)
+["cset", c, v(, "fn")]  condition c's test = v (or a function returning v)
+["spawna", r, d]        clock_of_r.sched_abs(its present beat + d, Routine r); d < 0: in the past
 ["bundle", lat, els, "bind"]  flat messages through Server.default.bind()
                         with Server.latency = lat
 ["msg", n]              send_msg('/m', rid, n) to the target address
@@ -176,7 +178,8 @@ def _gen_stmt(tp, feat, r, routines, n_clocks):
         if k == 3:
             return ['csignal', c]
         if k == 4:
-            return ['cset', c, bool(tp.draw(2))]
+            return ['cset', c, bool(tp.draw(2))] + \
+                (['fn'] if tp.draw(3) == 0 else [])
         if k == 5:
             return ['cunhang', c]
         if k == 6:
@@ -202,7 +205,8 @@ def _gen_stmt19(tp, feat, r, routines, n_clocks):
         if k == 3:
             return ['csignal', c]
         if k == 4:
-            return ['cset', c, bool(tp.draw(2))]
+            return ['cset', c, bool(tp.draw(2))] + \
+                (['fn'] if tp.draw(3) == 0 else [])
         if k == 5:
             return ['cunhang', c]
         if k == 6:
@@ -260,13 +264,13 @@ def shrink_candidates(prog):
     rs = prog['routines']
     # drop a whole routine that nobody spawns any more / leaf routines
     spawned = {st[1] for r in rs for st in r['body']
-               if st[0] in ('spawn', 'spawnd', 'embed')}
+               if st[0] in ('spawn', 'spawnd', 'embed', 'spawna')}
     for i in range(len(rs) - 1, 0, -1):
         c = copy.deepcopy(prog)
         # remove spawn statements for i, keep indices stable by emptying
         for r in c['routines']:
             r['body'] = [st for st in r['body']
-                         if not (st[0] in ('spawn', 'spawnd', 'embed')
+                         if not (st[0] in ('spawn', 'spawnd', 'embed', 'spawna')
                                  and st[1] == i)]
         if i in spawned:
             c['routines'][i]['body'] = []
@@ -314,6 +318,7 @@ class Interp:
         self.clocks = {'sys': sclk.SystemClock, 'app': sclk.AppClock}
         self.robj = {}
         self.conds = {}
+        self.cflags = {}
         self.flows = {}
         self.addr = snad.NetAddr(*target)
         self.nrec = {}
@@ -425,6 +430,18 @@ class Interp:
                                'secs': main.current_tt._seconds,
                                'delta': st[2], 'now': self.now()})
             self.clocks[cdef['clock']].sched(st[2], r)
+        elif op == 'spawna':
+            # clock.sched_abs(time point relative to the present, routine):
+            # a negative offset is a time point that has already elapsed
+            cid = st[1]
+            cdef = self.prog['routines'][cid]
+            r = self.make(cid)
+            cc = self.clocks[cdef['clock']]
+            at = cc.beats + st[2]
+            self.trace.append({'ev': 'spawnd', 'r': rid, 'child': cid,
+                               'secs': main.current_tt._seconds,
+                               'delta': st[2], 'now': self.now()})
+            cc.sched_abs(at, r)
         elif op == 'msg':
             self.send(rid, 'msg', None, [['M', st[1]]],
                       lambda: self.addr.send_msg('/m', rid, st[1]))
@@ -505,7 +522,13 @@ class Interp:
             self.cond(st[1]).unhang()
         elif op == 'cset':
             self.event('cset', rid, st[1], st[2])
-            self.cond(st[1]).test = st[2]
+            if len(st) > 3:
+                # the test becomes a function (of a flag kept here)
+                self.cflags[st[1]] = st[2]
+                self.cond(st[1]).test = \
+                    lambda c=st[1]: self.cflags[c]
+            else:
+                self.cond(st[1]).test = st[2]
         elif op == 'fset':
             try:
                 self.flow(st[1]).value = st[2]
